@@ -81,7 +81,11 @@ def gen_case(run, i):
     if nb > 1 and rng.random() < 0.4:
         k = rng.randint(1, nb)
         bands = (rng.sample(range(1, nb + 1), k), rng.sample(range(1, nb + 1), k))
-    return dict(i=i, choice=choice, nb=nb, bands=bands, unknown_key=rng.random() < 0.1)
+    unknown = rng.random() < 0.1
+    if i % 12 == 7:
+        # the command-line spelling of a real option, with a value that is not the default: not a key of the file
+        unknown = rng.choice(['kernel-shape=[5,3]', 'max-block-mem=0.001', 'r2-inpaint-thresh=0.5', 'proc-crs="src"', 'param-image=true'])
+    return dict(i=i, choice=choice, nb=nb, bands=bands, unknown_key=unknown)
 
 
 def effective(case, model_reply):
@@ -128,9 +132,13 @@ def run(run: common.Run):
             if c['how'] in ('conf', 'both'):
                 ctoks.append(f"{k}={tokv(c['conf'])}")
                 conf[k] = list(c['conf']) if isinstance(c['conf'], tuple) else c['conf']
-        if case['unknown_key']:
+        if case['unknown_key'] is True:
             ctoks.append('kernal_shape=[3,3]')
             conf['kernal_shape'] = [3, 3]
+        elif case['unknown_key']:
+            ctoks.append(case['unknown_key'])
+            uk, uv = case['unknown_key'].split('=', 1)
+            conf[uk] = json.loads(uv)
         lines.append('merge P ' + ' '.join(ptoks) + ' C ' + ' '.join(ctoks))
         prepared.append((case, conf))
     replies = common.model_batch(lines)
